@@ -781,8 +781,9 @@ func sentinelConsts(c *Ctx, owner *types.Named, fname string, except *ssa.Functi
 				if !ok {
 					continue
 				}
-				o, f := fieldAddrInfo(fa)
-				if o != owner || f == nil || f.Name() != fname {
+				// (by name: the field may have moved into a sub-struct of the reader)
+				_, f := fieldAddrInfo(fa)
+				if f == nil || f.Name() != fname {
 					continue
 				}
 				if k, ok := stripConv(st.Val).(*ssa.Const); ok && k.Value != nil && k.Value.String() != "0" {
@@ -810,6 +811,7 @@ type txOut struct {
 	st      txState
 	mayFail bool
 	ret     *ssa.Return
+	errIs   string // "0": the returned error is nil, "1": it is not, "": unknown
 }
 
 // txChecker: see the doc of STATE-AFTER-FALLIBLE.
@@ -843,35 +845,98 @@ func txSetAdd(set, f string) string {
 	return strings.Join(l, ",")
 }
 
-// recvField: the receiver field an address is rooted at (x.f, x.f[i], x.f[i].g,
-// (*x.f).g), whether the address is the field itself, and the inner field.
-func txRecvField(recv ssa.Value, a ssa.Value) (field string, direct bool, inner string) {
+var txPhiDepth int
+
+// txChain: the field names from the receiver to an address (x.f -> [f], x.f[i].g
+// -> [f g], (*x.f).g -> [f g], x.cur.f -> [cur f]) and, per element, whether a
+// pointer was followed (a load) or an element taken before it.
+func txChain(recv ssa.Value, a ssa.Value) (names []string, via []bool, ok bool) {
 	switch x := a.(type) {
 	case *ssa.FieldAddr:
+		name := ""
+		if _, f := fieldAddrInfo(x); f != nil {
+			name = f.Name()
+		}
 		if x.X == recv {
-			if _, f := fieldAddrInfo(x); f != nil {
-				return f.Name(), true, ""
-			}
-			return "", false, ""
+			return []string{name}, []bool{false}, true
 		}
-		f, _, _ := txRecvField(recv, x.X)
-		if f != "" {
-			in := ""
-			if _, fv := fieldAddrInfo(x); fv != nil {
-				in = fv.Name()
-			}
-			return f, false, in
+		n, v, ok := txChain(recv, x.X)
+		if !ok {
+			return nil, nil, false
 		}
+		_, loaded := x.X.(*ssa.UnOp)
+		_, indexed := x.X.(*ssa.IndexAddr)
+		return append(n, name), append(v, loaded || indexed), true
 	case *ssa.IndexAddr:
-		f, _, _ := txRecvField(recv, x.X)
-		return f, false, ""
+		n, v, ok := txChain(recv, x.X)
+		return n, v, ok
+	case *ssa.Slice:
+		// a re-slice shares the backing array: header := r.hdr[:n]; header[i] = ...
+		n, v, ok := txChain(recv, x.X)
+		return n, v, ok
+	case *ssa.Phi:
+		// fresh or reused backing array: the reused one counts
+		if txPhiDepth < 4 {
+			txPhiDepth++
+			defer func() { txPhiDepth-- }()
+			for _, e := range x.Edges {
+				if n, v, ok := txChain(recv, e); ok {
+					return n, v, ok
+				}
+			}
+		}
 	case *ssa.UnOp:
 		if x.Op == token.MUL {
-			f, _, _ := txRecvField(recv, x.X)
-			return f, false, ""
+			n, v, ok := txChain(recv, x.X)
+			return n, v, ok
+		}
+	}
+	return nil, nil, false
+}
+
+// txRecvField: the first field on the way from the receiver to the address that
+// the model knows (state grouped into a sub-struct held by value keeps its field
+// names), whether the address is that field itself, and the field after it.
+func (t *txChecker) recvField(recv ssa.Value, a ssa.Value) (field string, direct bool, inner string) {
+	names, via, ok := txChain(recv, a)
+	if !ok {
+		return "", false, ""
+	}
+	_, isIdx := a.(*ssa.IndexAddr)
+	for k, n := range names {
+		if t.want[n] || t.gates[n] {
+			// reached without following a pointer: the field of the reader (or of a by-value sub-struct)
+			plain := true
+			for _, v := range via[:k+1] {
+				if v {
+					plain = false
+				}
+			}
+			if !plain {
+				continue
+			}
+			in := ""
+			if k+1 < len(names) {
+				in = names[len(names)-1] // the leaf (an embedded struct in between does not matter)
+			}
+			return n, k == len(names)-1 && !isIdx, in
 		}
 	}
 	return "", false, ""
+}
+
+// txRecvField: kept for the callers that only need the root field.
+func txRecvField(recv ssa.Value, a ssa.Value) (field string, direct bool, inner string) {
+	names, _, ok := txChain(recv, a)
+	if !ok || len(names) == 0 {
+		return "", false, ""
+	}
+	_, isIdx := a.(*ssa.IndexAddr)
+	in := ""
+	if len(names) > 1 {
+		in = names[1]
+	}
+	return names[0], len(names) == 1 && !isIdx, in
 }
 
 func txEmptyVal(v ssa.Value) bool {
@@ -900,10 +965,11 @@ func (t *txChecker) note(e txEvent) {
 }
 
 // events of one function in which recv is the reader.
-func (t *txChecker) eventsOf(fn *ssa.Function, recv ssa.Value) (map[ssa.Instruction][]txEvent, map[[2]*ssa.BasicBlock][]txEvent, map[ssa.Instruction]*ssa.Function) {
+func (t *txChecker) eventsOf(fn *ssa.Function, recv ssa.Value) (map[ssa.Instruction][]txEvent, map[ssa.Instruction]string, map[ssa.Instruction]*ssa.Function, map[ssa.Instruction]ssa.Value) {
 	events := map[ssa.Instruction][]txEvent{}
-	edgeEvents := map[[2]*ssa.BasicBlock][]txEvent{}
+	forks := map[ssa.Instruction]string{}
 	inline := map[ssa.Instruction]*ssa.Function{}
+	inlineRecv := map[ssa.Instruction]ssa.Value{}
 	add := func(ins ssa.Instruction, e txEvent) {
 		events[ins] = append(events[ins], e)
 		t.note(e)
@@ -912,7 +978,7 @@ func (t *txChecker) eventsOf(fn *ssa.Function, recv ssa.Value) (map[ssa.Instruct
 		for _, ins := range b.Instrs {
 			switch x := ins.(type) {
 			case *ssa.Store:
-				f, direct, inner := txRecvField(recv, x.Addr)
+				f, direct, inner := t.recvField(recv, x.Addr)
 				if f == "" || !(t.want[f] || t.gates[f]) {
 					continue
 				}
@@ -945,57 +1011,48 @@ func (t *txChecker) eventsOf(fn *ssa.Function, recv ssa.Value) (map[ssa.Instruct
 					continue
 				}
 				if len(x.Call.Args) > 0 && x.Call.Signature().Recv() != nil {
-					f, _, _ := txRecvField(recv, x.Call.Args[0])
+					f, _, _ := t.recvField(recv, x.Call.Args[0])
 					if f != "" && t.isSub[f] {
-						if sc.Name() == "reset" && f == t.carrier {
+						if (sc.Name() == "reset" || t.emptiesChunk(sc)) && f == t.carrier {
 							add(ins, txEvent{"invalidate", f, ins.Pos()})
 							continue
 						}
 						if t.loaders[sc] {
-							// switched on the success edge of the test of its error
-							var errV ssa.Value = x
-							placed := false
-							if refs := x.Referrers(); refs != nil {
-								for _, ref := range *refs {
-									bo, ok := ref.(*ssa.BinOp)
-									if !ok || !(isNilConst(bo.X) || isNilConst(bo.Y)) || (bo.X != errV && bo.Y != errV) || bo.Referrers() == nil {
-										continue
-									}
-									for _, br := range *bo.Referrers() {
-										ifi, ok := br.(*ssa.If)
-										if !ok {
-											continue
-										}
-										ib := ifi.Block()
-										succ := ib.Succs[1]
-										if bo.Op == token.EQL {
-											succ = ib.Succs[0]
-										}
-										e := txEvent{"mutate", f, ins.Pos()}
-										edgeEvents[[2]*ssa.BasicBlock{ib, succ}] = append(edgeEvents[[2]*ssa.BasicBlock{ib, succ}], e)
-										t.note(e)
-										placed = true
-									}
-								}
-							}
-							if !placed {
-								add(ins, txEvent{"mutate", f, ins.Pos()})
-							}
+							// forked where it is called: it succeeded (the sub-reader is switched, the
+							// error is nil) or it failed (nothing switched, the error is not nil)
+							t.note(txEvent{"mutate", f, ins.Pos()})
+							forks[ins] = f
 							continue
 						}
 					}
 				}
-				// a helper of the same reader: followed into
+				// a helper of the same reader (or of a sub-struct it holds by value): followed into
 				for ai, a := range x.Call.Args {
-					if a == recv && ai < len(sc.Params) && !t.loaders[sc] {
+					if ai >= len(sc.Params) || t.loaders[sc] {
+						continue
+					}
+					if a == recv {
 						inline[ins] = sc
-						_ = ai
+						inlineRecv[ins] = sc.Params[ai]
+					} else if ai == 0 && x.Call.Signature().Recv() != nil {
+						if names, via, ok := txChain(recv, a); ok && len(names) > 0 {
+							plain := true
+							for _, v := range via {
+								if v {
+									plain = false
+								}
+							}
+							if _, isAddr := a.(*ssa.FieldAddr); isAddr && plain && !t.want[names[0]] {
+								inline[ins] = sc
+								inlineRecv[ins] = sc.Params[0]
+							}
+						}
 					}
 				}
 			}
 		}
 	}
-	return events, edgeEvents, inline
+	return events, forks, inline, inlineRecv
 }
 
 func (t *txChecker) apply(st *txState, evs []txEvent) {
@@ -1014,16 +1071,66 @@ func (t *txChecker) apply(st *txState, evs []txEvent) {
 	}
 }
 
+// emptiesChunk: a small method of the sub-reader whose only effect is to store an
+// empty value into curChunkBytes (dropChunk, invalidate ...).
+func (t *txChecker) emptiesChunk(fn *ssa.Function) bool {
+	if fn == nil || fn.Blocks == nil || len(fn.Blocks) != 1 || len(fn.Params) == 0 {
+		return false
+	}
+	n := 0
+	for _, ins := range fn.Blocks[0].Instrs {
+		if st, ok := ins.(*ssa.Store); ok {
+			f, direct, _ := txRecvField(fn.Params[0], st.Addr)
+			if !direct || f != "curChunkBytes" || !txEmptyVal(st.Val) {
+				return false
+			}
+			n++
+		}
+		if _, ok := ins.(*ssa.Call); ok {
+			return false
+		}
+	}
+	return n == 1
+}
+
+func txFlagSet(flags, key, val string) string {
+	var l []string
+	for _, p := range strings.Split(flags, ",") {
+		if p != "" && !strings.HasPrefix(p, key+"=") {
+			l = append(l, p)
+		}
+	}
+	l = append(l, key+"="+val)
+	sort.Strings(l)
+	return strings.Join(l, ",")
+}
+
+func txFlagGet(flags, key string) string {
+	for _, p := range strings.Split(flags, ",") {
+		if strings.HasPrefix(p, key+"=") {
+			return p[len(key)+1:]
+		}
+	}
+	return ""
+}
+
+func txErrKey(v ssa.Value) string {
+	if in, ok := v.(ssa.Instruction); ok && in.Parent() != nil {
+		return "e:" + in.Parent().Name() + ":" + v.Name()
+	}
+	return ""
+}
+
 // run explores fn from its entry in state in and returns the states at its returns.
 func (t *txChecker) run(fn *ssa.Function, recv ssa.Value, in txState, depth int) []txOut {
-	events, edgeEvents, inline := t.eventsOf(fn, recv)
+	events, forks, inline, inlineRecv := t.eventsOf(fn, recv)
 	// bool fields of the reader that fn only reads: two tests of the same flag agree
 	flagOf := func(v ssa.Value) (string, bool, bool) {
 		neg := false
 		for {
 			u, ok := v.(*ssa.UnOp)
 			if !ok {
-				return "", false, false
+				break
 			}
 			if u.Op == token.NOT {
 				neg = !neg
@@ -1031,14 +1138,46 @@ func (t *txChecker) run(fn *ssa.Function, recv ssa.Value, in txState, depth int)
 				continue
 			}
 			if u.Op == token.MUL {
-				if f, direct, _ := txRecvField(recv, u.X); direct && !t.gates[f] && !t.want[f] {
-					if b, ok := u.Type().Underlying().(*types.Basic); ok && b.Kind() == types.Bool {
-						return f, neg, true
+				if names, via, ok := txChain(recv, u.X); ok {
+					plain := true
+					for _, v := range via {
+						if v {
+							plain = false
+						}
+					}
+					leaf := names[len(names)-1]
+					if _, isFA := u.X.(*ssa.FieldAddr); isFA && plain && !t.gates[leaf] && !t.want[leaf] {
+						if b, ok := u.Type().Underlying().(*types.Basic); ok && b.Kind() == types.Bool {
+							return "f:" + strings.Join(names, "."), neg, true
+						}
 					}
 				}
 			}
 			return "", false, false
 		}
+		// a bool parameter tested twice
+		if prm, ok := v.(*ssa.Parameter); ok {
+			if b, ok := prm.Type().Underlying().(*types.Basic); ok && b.Kind() == types.Bool {
+				return "f:param:" + fn.Name() + ":" + prm.Name(), neg, true
+			}
+		}
+		// err != nil / err == nil for an error whose outcome is known on this path
+		if bo, ok := v.(*ssa.BinOp); ok && (bo.Op == token.NEQ || bo.Op == token.EQL) {
+			e := bo.X
+			if isNilConst(e) {
+				e = bo.Y
+			} else if !isNilConst(bo.Y) {
+				return "", false, false
+			}
+			if k := txErrKey(resolveLoad(e)); k != "" && isErrorType(e.Type()) {
+				// "1" = the error is non-nil
+				if bo.Op == token.EQL {
+					neg = !neg
+				}
+				return k, neg, true
+			}
+		}
+		return "", false, false
 	}
 	type node struct {
 		b  *ssa.BasicBlock
@@ -1056,6 +1195,20 @@ func (t *txChecker) run(fn *ssa.Function, recv ssa.Value, in txState, depth int)
 			work = append(work, n)
 		}
 	}
+	errResultOf := func(call *ssa.Call) ssa.Value {
+		res := call.Call.Signature().Results()
+		if res.Len() == 1 && isErrorType(res.At(0).Type()) {
+			return call
+		}
+		if refs := call.Referrers(); refs != nil && res.Len() > 1 && isErrorType(res.At(res.Len()-1).Type()) {
+			for _, ref := range *refs {
+				if ex, ok := ref.(*ssa.Extract); ok && ex.Index == res.Len()-1 {
+					return ex
+				}
+			}
+		}
+		return nil
+	}
 	for len(work) > 0 {
 		n := work[len(work)-1]
 		work = work[:len(work)-1]
@@ -1070,15 +1223,30 @@ func (t *txChecker) run(fn *ssa.Function, recv ssa.Value, in txState, depth int)
 		for idx := n.i; idx < len(b.Instrs); idx++ {
 			ins := b.Instrs[idx]
 			t.apply(&cur, events[ins])
-			if callee := inline[ins]; callee != nil && depth < 2 {
-				var cr ssa.Value
-				for ai, a := range ins.(*ssa.Call).Call.Args {
-					if a == recv && ai < len(callee.Params) {
-						cr = callee.Params[ai]
-					}
+			if f, isFork := forks[ins]; isFork {
+				call := ins.(*ssa.Call)
+				okSt, failSt := cur, cur
+				t.apply(&okSt, []txEvent{{"mutate", f, ins.Pos()}})
+				if ev := errResultOf(call); ev != nil {
+					okSt.flags = txFlagSet(okSt.flags, txErrKey(ev), "0")
+					failSt.flags = txFlagSet(failSt.flags, txErrKey(ev), "1")
+					push(node{b: b, i: idx + 1, st: okSt})
+					push(node{b: b, i: idx + 1, st: failSt})
+				} else {
+					push(node{b: b, i: idx + 1, st: okSt})
 				}
-				for _, o := range t.run(callee, cr, cur, depth+1) {
-					push(node{b: b, i: idx + 1, st: o.st})
+				split = true
+				break
+			}
+			if callee := inline[ins]; callee != nil && depth < 3 {
+				call := ins.(*ssa.Call)
+				ev := errResultOf(call)
+				for _, o := range t.run(callee, inlineRecv[ins], cur, depth+1) {
+					st := o.st
+					if ev != nil && o.errIs != "" {
+						st.flags = txFlagSet(st.flags, txErrKey(ev), o.errIs)
+					}
+					push(node{b: b, i: idx + 1, st: st})
 				}
 				split = true
 				break
@@ -1103,12 +1271,23 @@ func (t *txChecker) run(fn *ssa.Function, recv ssa.Value, in txState, depth int)
 			}
 			if ret, ok := ins.(*ssa.Return); ok {
 				mayFail := false
+				errIs := ""
 				for _, res := range ret.Results {
-					if isErrorType(res.Type()) && !isNilConst(resolveLoad(res)) {
-						mayFail = true
+					if !isErrorType(res.Type()) {
+						continue
+					}
+					rv := resolveLoad(res)
+					switch {
+					case isNilConst(rv):
+						errIs = "0"
+					default:
+						errIs = txFlagGet(cur.flags, txErrKey(rv))
+						if errIs != "0" {
+							mayFail = true
+						}
 					}
 				}
-				outs = append(outs, txOut{cur, mayFail, ret})
+				outs = append(outs, txOut{st: cur, mayFail: mayFail, ret: ret, errIs: errIs})
 			}
 		}
 		if split {
@@ -1121,13 +1300,13 @@ func (t *txChecker) run(fn *ssa.Function, recv ssa.Value, in txState, depth int)
 		if ifi, ok := b.Instrs[len(b.Instrs)-1].(*ssa.If); ok {
 			flag, neg, isFlag = flagOf(ifi.Cond)
 			if isFlag {
-				switch {
-				case strings.Contains(","+cur.flags+",", ","+flag+"=1,"):
+				switch txFlagGet(cur.flags, flag) {
+				case "1":
 					only = succs[0]
 					if neg {
 						only = succs[1]
 					}
-				case strings.Contains(","+cur.flags+",", ","+flag+"=0,"):
+				case "0":
 					only = succs[1]
 					if neg {
 						only = succs[0]
@@ -1140,14 +1319,13 @@ func (t *txChecker) run(fn *ssa.Function, recv ssa.Value, in txState, depth int)
 				continue
 			}
 			nx := cur
-			if isFlag && only == nil {
+			if isFlag && only == nil && strings.HasPrefix(flag, "f:") {
 				val := "1"
 				if (si == 1) != neg {
 					val = "0"
 				}
-				nx.flags = txSetAdd(cur.flags, flag+"="+val)
+				nx.flags = txFlagSet(cur.flags, flag, val)
 			}
-			t.apply(&nx, edgeEvents[[2]*ssa.BasicBlock{b, s}])
 			push(node{b: s, st: nx})
 		}
 	}
